@@ -72,12 +72,13 @@ Theorem unify_call_head_occurs_check_refuted :
     mgu (TApp (SAtom 9) (map E call)) (TApp (SAtom 9) [TVar 7; TApp (SAtom 2) [TVar 7]]) = None.
 Proof. exists [PVar 0; PVar 0], [PVar 1; f1 (PVar 1)], [PNone]. vm_compute. split; reflexivity. Qed.
 
-(* head-bindings-not-propagated:  head p(1,Z) called as p(Y,Y): the returned context leaves Z = Y unresolved
-   although Y := 1 is in the dictionary *)
+(* bindings not propagated in the returned context (substitute_all is ONE pass over the dictionary):
+   head p(Z,Z,1,W) called as p(X,Y,X,Y): W comes back as X although X := 1 is in the dictionary *)
 Theorem unify_call_head_result_is_resolved_refuted :
   exists call head ctx res tc sv,
-    unify_call_head 50 call head ctx = Ret res (tc, sv) /\ res = [PVar 0] /\ sv_get sv (PVar 0) = PTerm (SInt 1) [].
+    unify_call_head 50 call head ctx = Ret res (tc, sv) /\
+    res = [PTerm (SInt 1) []; PVar 0] /\ sv_get sv (PVar 0) = PTerm (SInt 1) [].
 Proof.
-  exists [PVar 0; PVar 0], [PTerm (SInt 1) []; PVar 1], [PNone]. eexists. eexists. eexists.
-  vm_compute. repeat split; reflexivity.
+  exists [PVar 0; PVar 2; PVar 0; PVar 2], [PVar 1; PVar 1; PTerm (SInt 1) []; PVar 3], [PNone; PNone].
+  eexists. eexists. eexists. vm_compute. repeat split; reflexivity.
 Qed.
